@@ -180,6 +180,22 @@ class SymE(object):
     def list(self, xs):
         return PList([self._in(x) for x in xs])
 
+    def text(self, template, *nums):
+        """a string: `template` with each %s replaced by the numeral of a number (opaque when symbolic)"""
+        parts = template.split("%s")
+        out = []
+        for i, piece in enumerate(parts):
+            out.append(piece)
+            if i < len(nums):
+                n = nums[i]
+                if isinstance(n, SV):
+                    out.append(Num(n, "repr"))
+                else:
+                    out.append(repr(float(n)) if not isinstance(n, int) else str(n))
+        if all(isinstance(p, str) for p in out):
+            return "".join(out)
+        return FmtStr(out)
+
     def dict(self, d):
         return PDict({k: self._in(v) for k, v in d.items()})
 
@@ -576,6 +592,16 @@ class ConcE(object):
 
     def list(self, xs):
         return View([self._raw(x) for x in xs], self)
+
+    def text(self, template, *nums):
+        parts = template.split("%s")
+        out = []
+        for i, piece in enumerate(parts):
+            out.append(piece)
+            if i < len(nums):
+                n = nums[i]
+                out.append(repr(float(n)) if not isinstance(n, int) or isinstance(n, bool) else str(n))
+        return "".join(out)
 
     def dict(self, d):
         return View({k: self._raw(v) for k, v in d.items()}, self)
